@@ -3,6 +3,7 @@ package rules
 import (
 	"fmt"
 	"go/token"
+	"go/types"
 	"sort"
 	"strings"
 
@@ -347,6 +348,59 @@ func ruleClassBits(c *report.Ctx) {
 						}
 						break
 					}
+				}
+			}
+		})
+	}
+	if rbits["staking"] == 0 && rbits["binding"] == 0 {
+		// the class decoded bit by bit: a class constant is handed on (stored, or merged into what is stored) under
+		// tests `flags & mask != 0`; the bits a class needs set are its pattern
+		bitsUnder := func(gs []an.Atom) int64 {
+			var m int64
+			for _, g := range gs {
+				if (g.Op != token.NEQ && g.Op != token.EQL) || g.X == nil || g.Y == nil {
+					continue
+				}
+				and, ok := g.X.(*ssa.BinOp)
+				z, isZ := constInt(g.Y)
+				if !ok || and.Op != token.AND || !isZ {
+					continue
+				}
+				k, isK := constInt(and.Y)
+				switch {
+				case !isK:
+				case g.Op == token.NEQ && z == 0: // flags & mask != 0
+					m |= k
+				case g.Op == token.EQL && z != 0: // flags & classMask == pattern
+					m |= z & k
+				}
+			}
+			return m
+		}
+		note := func(v ssa.Value, gs []an.Atom) {
+			cv := p.Desc(v)
+			if _, isK := v.(*ssa.Const); !isK {
+				return
+			}
+			if clsStaking != nil && cv == constString(clsStaking) {
+				rbits["staking"] = bitsUnder(gs)
+			}
+			if clsBinding != nil && cv == constString(clsBinding) {
+				rbits["binding"] = bitsUnder(gs)
+			}
+		}
+		an.Instrs(rd, func(in ssa.Instruction) {
+			switch x := in.(type) {
+			case *ssa.Store:
+				if strings.HasSuffix(p.Desc(x.Addr), "flags.Class") {
+					note(x.Val, p.GuardsOf(x))
+				}
+			case *ssa.Phi:
+				if clsStaking == nil || !types.Identical(x.Type(), clsStaking.Type()) {
+					return
+				}
+				for i, e := range x.Edges {
+					note(e, p.GuardsOnEdge(x.Block().Preds[i], x.Block()))
 				}
 			}
 		})
